@@ -8,6 +8,11 @@ checks = {
    text="488 (quick) scenarios = every seed kind x every multiset of <=2 asset kinds x 2 worker/asset-concurrency configurations plus four colliding multi-seed sites x 3 configurations; for each, every schedule of reactor, stage workers, per-asset goroutines, WARC-write threads and the source sink with at most D deviations from the canonical scheduler (quick D=1 sweep / 2 depth, thorough D=2 / 3) is executed on the real code. Oracle per execution: each inserted seed finished exactly once; no node of the finished tree awaits work; every URL of an independent reference crawler's tree fetched with the reference attempt count and its fetch closed before the finish message; nothing else fetched; reactor empty; no panic, no deadlock.",
    note="Fake transport (immediate answers; WARC write = separate scheduled thread started at body close); seencheck against an in-memory fake crawl HQ; pkg/models, stats, domainscrawl points are not scheduling points; delay bounding explores all schedules within D deviations, not all schedules.",
    ref="4/C01"),
+ "C02": dict(level="model_checking", engine="explore",
+   technique="part A: stateless model checking of the real pipeline with the WARC write of every response as its own scheduled thread (delay-bounded schedules, one slow write as environment deviation); part B (when present): exhaustive boundary-response x configuration grid on the real WARC writer in child processes, independent WARC reader as oracle",
+   text="Part A: 21 (quick) scenarios incl. retried failures and responses the real discard hook chain rejects; every schedule with at most D deviations (quick 2, thorough 3) and at most one slow write; at each finish message every accepted response fetched for the seed has been written and no rejected response is ever written.",
+   note="Part A's writer is a fake that marks a response written and then signals feedback; byte-exactness, record completeness and the real library's flush-before-feedback are decided by part B on the real writer.",
+   ref="4/C02"),
  "C03": dict(level="model_checking", engine="explore",
    technique="stateless model checking of the real stop sequence against the running real pipeline (fake transport) under the controlled scheduler: the stop request is a thread that every schedule within the delay bound places before any step of the run; configuration matrix enumerated",
    text="Part A: 23 scenarios = seeds in flight {0,1,2} x workers {1,2} x rate limiter on/off x paused-for-good or not, plus proxy, async WARC, seencheck hq/local/off; every schedule with at most D deviations (quick 1, thorough 2) and all select outcomes; oracle: the stop sequence returns, every thread has exited, worker gauges are zero, no panic.",
